@@ -267,6 +267,18 @@ func genCodec(e *emitter, r *rng.R, n int, tier string) {
 		}
 		ops = append(ops, fmt.Sprintf("V:%d O:%d %s", v, op, hex.EncodeToString(body)))
 	}
+	// batches at the small end of what a child can be: many children, each a 1-byte prepared id without values
+	for _, v := range codecVersions {
+		for _, k := range []int{1, 3, 4, 7, 8, 20, 300} {
+			b := &message.Batch{Type: primitive.BatchTypeUnlogged, Consistency: primitive.ConsistencyLevelOne}
+			for j := 0; j < k; j++ {
+				b.Children = append(b.Children, &message.BatchChild{Id: []byte{byte(j + 1)}})
+			}
+			if body := refBody(v, primitive.OpCodeBatch, b); body != nil {
+				emit(v, primitive.OpCodeBatch, body)
+			}
+		}
+	}
 	for i := 0; i < n; i++ {
 		rr := r.Fork(uint64(i))
 		v := codecVersions[rr.Intn(len(codecVersions))]
